@@ -392,11 +392,13 @@ class GizaCategory(Generic[_I]):
 
     def __delitem__(self, file_id: str) -> None:
         """Remove a file and any nodes it may have created."""
+        del self.nodes[file_id]
+
+        # Files which neither inherit nor are inherited from have no graph node
         try:
             self.dg.remove_node(file_id)
-        except networkx.exception.NetworkXError as err:
-            raise KeyError(file_id) from err
-        del self.nodes[file_id]
+        except networkx.exception.NetworkXError:
+            pass
 
         # If we have reified a copy of this node, delete that too
         if self.reified_nodes is not None:
